@@ -418,9 +418,16 @@ func clientSign(e *ibcEnv, mode signing.SignMode, sd authsigning.SignerData, b c
 // written only when every message succeeds.  Returns (anteErr, msgErr) and the context the ante
 // handler produced (it carries the packet proof heights).
 func (e *ibcEnv) runTx(msgs ...sdk.Msg) (anteErr, msgErr error) {
+	anteErr, msgErr, _ = e.runTxAt(msgs...)
+	return anteErr, msgErr
+}
+
+// runTxAt is runTx that also reports the index of the message that failed (-1: none / ante)
+func (e *ibcEnv) runTxAt(msgs ...sdk.Msg) (anteErr, msgErr error, at int) {
+	at = -1
 	tx, err := e.signedTx(msgs...)
 	if err != nil {
-		return err, nil
+		return err, nil, at
 	}
 	// baseapp.validateBasicTxMsgs comes before the ante handler
 	func() {
@@ -439,7 +446,7 @@ func (e *ibcEnv) runTx(msgs ...sdk.Msg) (anteErr, msgErr error) {
 		}
 	}()
 	if anteErr != nil {
-		return anteErr, nil
+		return anteErr, nil, at
 	}
 	base := e.f.Ctx.WithBlockGasMeter(storetypes.NewInfiniteGasMeter())
 	actx, awrite := base.CacheContext()
@@ -453,7 +460,7 @@ func (e *ibcEnv) runTx(msgs ...sdk.Msg) (anteErr, msgErr error) {
 		nctx, anteErr = e.anteH(actx, tx, false)
 	}()
 	if anteErr != nil {
-		return anteErr, nil
+		return anteErr, nil, at
 	}
 	awrite()
 	// messages: fresh cache on top of the (now written) state, keeping the values the ante put in the context
@@ -464,7 +471,8 @@ func (e *ibcEnv) runTx(msgs ...sdk.Msg) (anteErr, msgErr error) {
 				msgErr = &PanicError{Val: r}
 			}
 		}()
-		for _, m := range msgs {
+		for i, m := range msgs {
+			at = i
 			h := e.f.App.MsgServiceRouter().Handler(m)
 			if h == nil {
 				msgErr = fmt.Errorf("no handler for %T", m)
@@ -481,8 +489,9 @@ func (e *ibcEnv) runTx(msgs ...sdk.Msg) (anteErr, msgErr error) {
 	}()
 	if msgErr == nil {
 		mwrite()
+		at = -1
 	}
-	return nil, msgErr
+	return nil, msgErr, at
 }
 
 // ---- connections / channels --------------------------------------------------------------------
